@@ -43,29 +43,35 @@ func zzDelivered(im *pb.InterchainMeta, chain string) int {
 // chB:sB (index: zero, a repeat, the expected one, or a skipped one). An accepted request is listed for its
 // destination chain exactly once, in the delivery set of the block that accepted it and of no
 // other block (in particular not of a following empty block); a rejected one is listed nowhere;
-// the interchain counter equals the number of accepted requests.
-// zz:also C08 C09
+// the interchain counter equals the number of accepted requests. The proof verdict of each request
+// is a free choice too: a request whose proof was rejected changes nothing and is delivered nowhere (C03).
+// zz:also C08 C09 C03
 func ZZH_C02_block_delivery() {
 	exec := zzNewExec(1, big.NewInt(0))
-	exec.ibtpVerify = &zzStubVerify{verdict: make([]uint8, 8), seen: make([]int, 8)}
-	exec.config.ProofType = "serial"
+	sv := &zzStubVerify{verdict: make([]uint8, 8), seen: make([]int, 8)}
+	exec.ibtpVerify = sv
+	exec.config.ProofType = []string{"serial", "parallel"}[zz.Choice("proofType", zz.Tier(1, 2))]
 	zzInterchainWorld(exec)
 	accepted := uint64(0)
 	nonce := uint64(0)
-	for h := uint64(1); h <= uint64(zz.Tier(3, 4)); h++ {
+	exec.processExecuteEvent(zzBlockOf(1, nil)) // block 1 is the genesis block on a real chain (its proofs are never checked)
+	for h := uint64(2); h <= uint64(zz.Tier(4, 4)); h++ {
 		var txs []pb.Transaction
 		expect := 0
 		switch zz.Choice("block", 3) {
 		case 1:
-			txs = append(txs, zzTransferTx(zzUsers[0], zzUsers[1], nonce, int(h-1), "0"))
+			txs = append(txs, zzTransferTx(zzUsers[0], zzUsers[1], nonce, int(h-2), "0"))
 			nonce++
 		case 2:
 			// (ids end up in ordered store keys: a concrete candidate set instead of a symbolic index;
 			// the symbolic-index step is ZZH_C02_step)
 			idx := []uint64{0, accepted, accepted + 1, accepted + 2}[zz.Choice("index", 4)]
-			txs = append(txs, zzRequestTx(idx, nonce, int(h-1)))
+			txs = append(txs, zzRequestTx(idx, nonce, int(h-2)))
+			// the proof pool's verdict on this transaction: accepted, rejected with an error, rejected by the rule
+			sv.verdict[nonce] = uint8(zz.Choice("proofVerdict", zz.Tier(2, 3)))
+			proofOK := sv.verdict[nonce] == 0
 			nonce++
-			if idx == accepted+1 {
+			if idx == accepted+1 && proofOK {
 				expect = 1
 				accepted++
 			}
